@@ -1,5 +1,6 @@
 import BstreamVerif.Lemmas.StepCheckSound
 import BstreamVerif.Lemmas.Complete
+import BstreamVerif.Lemmas.RetentionStep
 /-!
 # C03 — the stream follows the chain head and the chain's declared finality
 
@@ -9,7 +10,8 @@ import BstreamVerif.Lemmas.Complete
 otherwise nothing is delivered and the tip is unchanged. Same hypotheses as C01's step theorem.
 `lib_follows_declared`: the LIB moves to the ancestor of the tip at the tip's declared LIB number.
 `outputs_ignore_refed_and_below_lib_blocks`: removing re-fed and below-LIB blocks from a history changes nothing.
-Independence of the retention setting is checked by the twin-run monitors.
+`outputs_independent_of_retention`: the event stream does not depend on the number of final blocks kept
+(`Lemmas/Retention`, `Lemmas/RetentionStep`: two forkables side by side, buffers identical at and above the LIB).
 -/
 namespace BstreamVerif.Props.C03
 open BstreamVerif BstreamVerif.Forkable BstreamVerif.ForkDB
@@ -290,6 +292,80 @@ theorem history_tip_follows (cfg : Config) (hnew : cfg.matches .new = true) (hun
     ∃ l, (runHistory cfg s0 (pre ++ [b])).1.lastSent = some l ∧ l.ref = b.ref :=
   (history_head_and_lib_follow cfg hnew hundo hirr U hU pre b F s0 P0 hI hJ hin hL hincl hi hfresh hnb ids hp hn hpar htr).1
 
+/-! ### outputs do not depend on the retention setting -/
+
+/-- two forkables that differ only in their retention setting (`kept`), from twin states (identical at and above the
+    LIB), fed the same history of blocks of one consistent tree: the same event stream -/
+theorem twin_history (cfg : Config) (k : Nat) (hnew : cfg.matches .new = true) (hundo : cfg.matches .undo = true)
+    (hirr : cfg.matches .irreversible = true) (U : Id → Option Blk) (hU : UOK U) (h : List Blk) (F₁ F₂ : List Id)
+    (s₁ s₂ : FState) (P : List Id) (hT : Twin s₁ s₂) (hI₁ : Inv s₁ P) (hI₂ : Inv s₂ P)
+    (hJ₁ : Inv2 U F₁ s₁.db) (hJ₂ : Inv2 U F₂ s₂.db) (hi₁ : InitNumOK s₁.db) (hi₂ : InitNumOK s₂.db)
+    (hin : ∀ b ∈ h, U b.id = some b) (hL₁ : Props.C01.LibHistOK cfg s₁ h)
+    (hL₂ : Props.C01.LibHistOK { cfg with kept := k } s₂ h)
+    (hincl : s₁.includeInit = false ∨ s₁.lastSent.isSome = true) :
+    (runHistory { cfg with kept := k } s₂ h).2 = (runHistory cfg s₁ h).2 := by
+  induction h generalizing s₁ s₂ P F₁ F₂ with
+  | nil => rfl
+  | cons b r ih =>
+    have hbU := hin b (by simp)
+    have hincl₂ : s₂.includeInit = false ∨ s₂.lastSent.isSome = true := by rw [hT.incl, hT.last]; exact hincl
+    have hni : ∀ (s : FState), (s.includeInit = false ∨ s.lastSent.isSome = true) →
+        s.includeInit = false ∨ s.lastSent.isSome = true ∨ b.id ≠ s.db.libRef.id := by
+      intro s hs
+      rcases hs with h | h
+      · exact Or.inl h
+      · exact Or.inr (Or.inl h)
+    obtain ⟨hev, hT'⟩ := twin_step cfg { cfg with kept := k } rfl rfl rfl hnew hundo U hU F₁ F₂ s₁ s₂ P b hT hI₁ hI₂
+      hJ₁ hJ₂ hi₁ hi₂ hbU hL₁.1 hL₂.1 hincl
+    obtain ⟨P₁, F₁', hrun₁, hI₁', hJ₁', htip₁⟩ :=
+      Props.C01.step_discipline_consistent cfg hnew hundo hirr U hU F₁ s₁ P b hI₁ hJ₁ hbU hL₁.1 (hni s₁ hincl)
+    obtain ⟨P₂, F₂', hrun₂, hI₂', hJ₂', _⟩ :=
+      Props.C01.step_discipline_consistent { cfg with kept := k } hnew hundo hirr U hU F₂ s₂ P b hI₂ hJ₂ hbU hL₂.1
+        (hni s₂ hincl₂)
+    -- the consumer ends on the same pending chain: same events from the same position
+    have hPP : P₂ = P₁ := by
+      rw [hev, hT.db.lib, hrun₁] at hrun₂
+      have := Option.some.inj hrun₂
+      exact (CS.mk.inj this).2.symm
+    subst hPP
+    obtain ⟨_, _, _, _, _, hshape₁, _⟩ := processBlock_step cfg hnew hundo hirr s₁ P b hI₁ (hni s₁ hincl)
+      (sentClosed_of_inv2 U F₁ s₁.db hI₁.wf hI₁.heights hJ₁) (hU.wf b.id b hbU) (hb_of_inv2 U hU F₁ s₁.db hJ₁ b hbU) hL₁.1
+    obtain ⟨_, _, _, _, _, hshape₂, _⟩ := processBlock_step { cfg with kept := k } hnew hundo hirr s₂ P b hI₂
+      (hni s₂ hincl₂) (sentClosed_of_inv2 U F₂ s₂.db hI₂.wf hI₂.heights hJ₂) (hU.wf b.id b hbU)
+      (hb_of_inv2 U hU F₂ s₂.db hJ₂ b hbU) hL₂.1
+    rw [Props.C01.runHistory_cons, Props.C01.runHistory_cons]
+    simp only
+    rw [hev]
+    congr 1
+    exact ih F₁' F₂' _ _ P₂ hT' hI₁' hI₂' hJ₁' hJ₂' (initNumOK_step cfg s₁ b _ hshape₁ hi₁)
+      (initNumOK_step _ s₂ b _ hshape₂ hi₂) (fun x hx => hin x (by simp [hx])) hL₁.2 hL₂.2
+      (by rcases hincl with h | h
+          · exact Or.inl (by rw [processBlock_includeInit]; exact h)
+          · rcases htip₁ with ⟨_, hsame⟩ | hsome
+            · exact Or.inr (by rw [hsame]; exact h)
+            · exact Or.inr hsome)
+
+/-- **outputs do not depend on the retention setting**: a forkable started on a known LIB `r`, fed any history of
+    blocks of one consistent block tree (any order, duplicates, forks, orphans, blocks below the LIB), delivers the
+    same event stream whatever number of final blocks it is told to keep. Hypotheses on the input only: the blocks
+    come from a consistent universe in which `r`'s children are above it, and LIB declarations name ancestor heights
+    in both runs (`LibHistOK`, a statement about the declared numbers along each run). -/
+theorem outputs_independent_of_retention (cfg : Config) (k : Nat) (r : Ref) (hr : r.id ≠ "")
+    (hroot : cfg.root = some (.exclusive r)) (hnew : cfg.matches .new = true) (hundo : cfg.matches .undo = true)
+    (hirr : cfg.matches .irreversible = true) (U : Id → Option Blk) (hU : UOK U)
+    (h1 : ∀ b, U b.id = some b → b.parent = r.id → r.num < b.num)
+    (h2 : ∀ b, U b.id = some b → b.id = r.id → b.num = r.num)
+    (h : List Blk) (hin : ∀ b ∈ h, U b.id = some b)
+    (hL₁ : Props.C01.LibHistOK cfg (init cfg) h)
+    (hL₂ : Props.C01.LibHistOK { cfg with kept := k } (init { cfg with kept := k }) h) :
+    (runHistory { cfg with kept := k } (init { cfg with kept := k }) h).2 = (runHistory cfg (init cfg) h).2 := by
+  have hinit : init { cfg with kept := k } = init cfg := by unfold init; rfl
+  rw [hinit] at hL₂ ⊢
+  exact twin_history cfg k hnew hundo hirr U hU h [r.id] [r.id] (init cfg) (init cfg) [] (Twin.refl _)
+    (Props.C01.init_inv cfg r hr hroot) (Props.C01.init_inv cfg r hr hroot)
+    (Props.C01.init_inv2 cfg r hroot U h1 h2) (Props.C01.init_inv2 cfg r hroot U h1 h2)
+    (initNumOK_init cfg) (initNumOK_init cfg) hin hL₁ hL₂ (Or.inl (by unfold init; rw [hroot]))
+
 /-! ### outputs do not depend on re-fed or below-LIB blocks -/
 
 /-- a block the forkable ignores in state `s`: below the LIB once the stream has started, or stored already -/
@@ -362,5 +438,26 @@ example : (∃ l, (runHistory cfgN (init cfgN) ([a2, a3, a4] ++ [a5])).1.lastSen
     (by decide) (by decide) ["a3", "a4"] ⟨by decide, by decide, by decide, by decide, trivial⟩ (by decide) (by decide)
     (by decide)
   exact ⟨h.1, h.2 "a3" ⟨a3, true⟩ (by decide) (by decide) rfl⟩
+
+/-- non-vacuity of `outputs_independent_of_retention`: the history a2 … a5 (two LIB moves, hence two purges) with 1 and
+    with 7 kept final blocks — every hypothesis discharged by kernel evaluation -/
+example : (runHistory { cfgN with kept := 7 } (init { cfgN with kept := 7 }) [a2, a3, a4, a5]).2 =
+    (runHistory cfgN (init cfgN) [a2, a3, a4, a5]).2 := by
+  apply outputs_independent_of_retention cfgN 7 ⟨"r", 1⟩ (by decide) rfl (by decide) (by decide) (by decide)
+    (ofList uN) (uokB_sound uN (by decide))
+  · intro b hb hp
+    have hm := (ofList_mem uN _ b hb).1
+    have : ∀ x ∈ uN, x.parent = "r" → 1 < x.num := by decide
+    exact this b hm hp
+  · intro b hb hid
+    have hm := (ofList_mem uN _ b hb).1
+    have : ∀ x ∈ uN, x.id = "r" → x.num = 1 := by decide
+    exact this b hm hid
+  · intro b hb
+    apply ofList_of_mem uN (by decide)
+    have : ∀ x ∈ [a2, a3, a4, a5], x ∈ uN := by decide
+    exact this b hb
+  · exact libHistB_sound cfgN _ _ (by decide)
+  · exact libHistB_sound { cfgN with kept := 7 } _ _ (by decide)
 
 end BstreamVerif.Props.C03
